@@ -353,8 +353,18 @@ func (k *ExtendedKey) Neuter() (*ExtendedKey, error) {
 	// key will simply be the pubkey of the current extended private key.
 	//
 	// This is the function N((k,c)) -> (K, c) from [BIP32].
-	return NewExtendedKey(version, k.pubKeyBytes(), k.chainCode, k.parentFP,
-		k.depth, k.childNum, false), nil
+	//
+	// The new key gets its own copies of the byte slices: Zero clears them in
+	// place and must only clear the key it is called on.
+	return NewExtendedKey(version, copyBytes(k.pubKeyBytes()), copyBytes(k.chainCode),
+		copyBytes(k.parentFP), k.depth, k.childNum, false), nil
+}
+
+// copyBytes returns a copy of b that shares no memory with it.
+func copyBytes(b []byte) []byte {
+	c := make([]byte, len(b))
+	copy(c, b)
+	return c
 }
 
 // ECPubKey converts the extended key to a btcec public key and returns it.
